@@ -46,8 +46,12 @@ func CreateEvaluator(expression string, opts ...Option) (*Evaluator, error) {
 		return nil, err
 	}
 
+	// the tree is not shared with anyone yet, this is the only time it is written
+	root := ast.(grammar.Expression)
+	compileRegexps(root)
+
 	eval := &Evaluator{
-		ast:                     ast.(grammar.Expression),
+		ast:                     root,
 		tagName:                 parsedOpts.withTagName,
 		valueTransformationHook: parsedOpts.withHookFn,
 		unknownVal:              parsedOpts.withUnknown,
